@@ -259,4 +259,5 @@ def meta(tier):
                   "specification is checked",
     })
     m["assumptions"] = m["assumptions"] + ["reference least fixed point (vlib/oracles.lfp)"]
+    m["bounds"] = str(m.get("bounds", "")) + " || end-to-end groups of this run: " + e2e.describe_groups(groups(tier))
     return m
